@@ -45,4 +45,16 @@ CLAIMED['C16'] = dict(
     technique='deductive verification: loop-free full-domain harnesses and Hoare loop rule (cbmc + cadical) on mechanically lowered real code, '
               'underlay stubs whose preconditions are the alignment clause, ghost provenance tracking',
     design='§6 C16')
+CLAIMED['C04'] = dict(
+    text='Proof (loop-free, all 64-bit inputs): sat_add/sat_sub, Timeout (constructor, timeout(x), timeout(), expired(), timeout_at_most), '
+         'thread::set_error_number (an interrupt reason is returned as -1/errno exactly once and cleared, so it cannot end a later sleep), '
+         'waitq_translate_errno, do_shutdown_usleep(_defer) (deadline capped at now+10ms, -1 with EPERM unless interrupted) are lowered from '
+         '/repo on every run and verified against their statements.  Bounded: SleepQueue push / pop_front / pop (incl. removal from the '
+         'middle, absent thread) preserve the heap representation invariant and the set of sleepers and pop_front returns an earliest deadline, '
+         'for every heap of at most 6 (quick) / 14 (thorough) sleepers with arbitrary 64-bit deadlines.',
+    note=TRUST + ' The heap result is bounded, not a proof. Not decided by contracts: wake-up no later than the first scheduling round after the '
+         'deadline, cross-vCPU interrupt ordering, the context switch (scheduler/assembly).  std::vector is a fixed-capacity array model; '
+         'thread pointers are represented as pool indices.',
+    technique='deductive verification: loop-free full-domain CBMC harnesses on mechanically lowered real code; bounded CBMC for the heap; native replay',
+    design='§6 C04')
 NA = {}
